@@ -772,6 +772,26 @@ def mutate(tree, gen, rnd):
     """one near-miss mutation of a (usually well-typed) tree; returns (tree, kind)"""
     paths = list(all_paths(tree))
     ctx = gen.ctx
+    if rnd.random() < 0.15:
+        # sibling scopes re-using one bound name (legal: only a warning), optionally with a use transplanted from the
+        # first scope into the second (legal only if both domains have the same typification)
+        binders = [(p, n) for p, n in paths if n[0] in ('FORALL', 'EXISTS', 'NT_DECLARATIVE_EXPR') and n[2][0][0] == 'ID_LOCAL']
+        pairs = [(a, b) for a in binders for b in binders if a[0] < b[0] and b[0][:len(a[0])] != a[0] and a[1][2][0][1] != b[1][2][0][1]]
+        if pairs:
+            (p1, b1), (p2, b2) = rnd.choice(pairs)
+            v1, v2 = b1[2][0][1], b2[2][0][1]
+            if not TypedGen.mentions(b2, v1):
+                renamed = rg.map_locals(b2, lambda x: v1 if x == v2 else x)
+                kind = 'sibling-rename'
+                if rnd.random() < 0.5:
+                    uses = [n for p, n in all_paths(b1[2][2]) if n[0] != 'ID_LOCAL' and TypedGen.mentions(n, v1) and not rg.is_logic(n)
+                            and not any(m[0] in ('FORALL', 'EXISTS', 'NT_DECLARATIVE_EXPR', 'NT_IMPERATIVE_EXPR', 'NT_RECURSIVE_FULL', 'NT_RECURSIVE_SHORT') for _p, m in all_paths(n))]
+                    spots = [p for p, n in all_paths(renamed[2][2]) if n[0] == 'ID_LOCAL' and n[1] == v1]
+                    if uses and spots:
+                        body = replace_at(renamed[2][2], rnd.choice(spots), rg.map_locals(rnd.choice(uses), lambda x: x))
+                        renamed = [renamed[0], renamed[1], [renamed[2][0], renamed[2][1], body]]
+                        kind = 'sibling-transplant'
+                return replace_at(tree, p2, renamed), kind
     for _ in range(20):
         path, node = rnd.choice(paths)
         i = node[0]
